@@ -7,8 +7,10 @@ from .common import *
 CHECKS = {
     "C01": conn_checks.check_C01,
     "C02": conn_checks.check_C02,
+    "C03": conn_checks.check_C03,
     "C04": conn_checks.check_C04,
     "C05": conn_checks.check_C05,
+    "C06": conn_checks.check_C06,
 }
 
 
